@@ -147,6 +147,15 @@ Definition uuid_like (s : list N) : bool := match s with [] => false | _ => fora
 Fixpoint mem (x : list N) (tbl : list (list N)) : bool :=
   match tbl with [] => false | y :: r => bytes_eqb x y || mem x r end.
 
+(* utils.IsSafePathComponent (pkg/utils/fileutils.go, added by fix C19-validate-names):
+   non-empty, not "." or "..", no '/', no '\', no NUL *)
+Definition safe_char (c : N) : bool := negb (c =? SL) && negb (c =? 92) && negb (c =? 0).
+Definition safe_component (s : list N) : bool :=
+  match s with
+  | [] => false
+  | _ => negb (is_dot s) && negb (is_dotdot s) && forallb safe_char s
+  end.
+
 (* string literals *)
 Definition s_lookups := [108;111;111;107;117;112;115].                 (* lookups *)
 Definition s_csv := [46;99;115;118].                                   (* .csv *)
@@ -177,12 +186,13 @@ Definition s_bin := [46;98;105;110].                                   (* .bin *
 Definition lookups_dir (D : list N) : list N := D ++ s_lookups ++ [SL].
 
 (* UploadLookupFile: the "name" form field gets the extension of the uploaded file appended
-   unless it already ends (case-insensitively) in .csv / .csv.gz; the only validator is
-   name <> "" *)
+   unless it already ends (case-insensitively) in .csv / .csv.gz.
+   Validator before the fix ([upload_ok_v0]): name <> "".  Since the fix: IsSafePathComponent. *)
 Definition upload_name (name : list N) (gz : bool) : list N :=
   if has_suffix (lower name) s_csv || has_suffix (lower name) s_csvgz then name
   else name ++ (if gz then s_csvgz else s_csv).
-Definition upload_ok (name : list N) : bool := match name with [] => false | _ => true end.
+Definition upload_ok_v0 (name : list N) : bool := match name with [] => false | _ => true end.
+Definition upload_ok (name : list N) : bool := safe_component name.
 Definition site_lookup_upload (D name : list N) (gz : bool) : list N :=
   gojoin [lookups_dir D; upload_name name gz].
 
@@ -190,8 +200,10 @@ Definition site_lookup_upload (D name : list N) (gz : bool) : list N :=
    in the handler; fasthttp/router hands over one raw path element (never contains '/') *)
 Definition site_lookup_file (D name : list N) : list N := gojoin [lookups_dir D; name].
 
-(* inputlookup: validator isCSVFormat (suffix .csv or .csv.gz), then filepath.Join *)
-Definition inputlookup_ok (f : list N) : bool := has_suffix f s_csv || has_suffix f s_csvgz.
+(* inputlookup: validators IsSafePathComponent (since the fix) and isCSVFormat (suffix .csv or
+   .csv.gz), then filepath.Join *)
+Definition inputlookup_ok_v0 (f : list N) : bool := has_suffix f s_csv || has_suffix f s_csvgz.
+Definition inputlookup_ok (f : list N) : bool := safe_component f && inputlookup_ok_v0 f.
 Definition site_inputlookup (D f : list N) : list N := gojoin [lookups_dir D; f].
 
 (* dashboards: DataPath + "querynodes/" + hostID + "/dashboards/details/" + id + ".json" *)
@@ -204,7 +216,14 @@ Definition site_scroll (D H id : list N) : list N :=
   D ++ H ++ [SL] ++ s_scroll ++ [SL] ++ id ++ s_csv.
 Definition scroll_ok (table : list (list N)) (id : list N) : bool := mem id table.
 
-(* bulk ingest, index name from the action line, no validator:
+(* index names (bulk action line, ProcessIndexRequestPle, deleteIndex), index and alias names of
+   AddAliases / RemoveAliases, tag keys at flushSingleTagsTree: no validator before the fix,
+   IsSafePathComponent since *)
+Definition index_ok (idx : list N) : bool := safe_component idx.
+Definition alias_ok (idx : list N) : bool := safe_component idx.
+Definition tagkey_ok (key : list N) : bool := safe_component key.
+
+(* bulk ingest, index name from the action line:
    config.GetSuffixFile, config.GetBaseSegDir, getActiveBaseDirVTable *)
 Definition site_suffix_file (D H idx sid : list N) : list N :=
   D ++ H ++ [SL] ++ s_suffix ++ [SL] ++ idx ++ [SL] ++ sid ++ s_dotsuffix.
